@@ -304,13 +304,13 @@ def gen_scenario(rng, thorough=False, force=None):
                 sc['n_cpus'] = None
     else:
         sc['api'] = rng.choice(['multi_run', 'MultiSim', 'parallel'])
-        k = rng.choice([1, 2, 3, 3, 4, 5] + ([8, 12] if thorough else []))
+        k = max(rng.choice([1, 2, 3, 3, 4, 5] + ([8, 12] if thorough else [])), force.get('min_members', 1))
         same = rng.random() < 0.5
         if not same:
             for _ in range(min(k - 1, 2)):
                 cfgs.append(small_cfg(rng))
         sc['members'] = [dict(cfg=(0 if same else rng.randrange(len(cfgs))), seed=rng.randint(0, 10000)) for _ in range(k)]
-    sc.update({k: v for k, v in force.items() if k not in ('target', 'mode')})
+    sc.update({k: v for k, v in force.items() if k not in ('target', 'mode', 'min_members')})
     return sc
 
 
@@ -507,7 +507,7 @@ def correspond(ctx):
     scenarios = [gen_scenario(ctx.rng, ctx.thorough) for _ in range(nsc)]
     # fixed families that must always be exercised
     scenarios += [gen_scenario(ctx.rng, ctx.thorough, dict(target='single', mode='parallel', n_cpus=2, api='multi_run', n_runs=4, iterpars=None, reseed=None)),
-                  gen_scenario(ctx.rng, ctx.thorough, dict(target='list', mode='parallel', n_cpus=2, api='MultiSim', inplace=True)),
+                  gen_scenario(ctx.rng, ctx.thorough, dict(target='list', mode='parallel', n_cpus=2, api='MultiSim', inplace=True, min_members=3)),
                   gen_scenario(ctx.rng, ctx.thorough, dict(target='list', mode='debug', api='MultiSim')),
                   gen_scenario(ctx.rng, ctx.thorough, dict(target='single', mode='debug', api='MultiSim', iterpars=None)),
                   gen_scenario(ctx.rng, ctx.thorough, dict(target='single', mode='parallel', n_cpus=1, api='multi_run', n_runs=6, iterpars=None)),
@@ -778,8 +778,8 @@ def search(ctx):
     scenarios = [gen_scenario(ctx.rng, ctx.thorough) for _ in range(n)]
     scenarios += [gen_scenario(ctx.rng, ctx.thorough, dict(target='single', mode='parallel', n_cpus=2, api='MultiSim', n_runs=4, iterpars=None, reseed=None)),
                   gen_scenario(ctx.rng, ctx.thorough, dict(target='single', mode='serial', api='multi_run', n_runs=3, iterpars=None, reseed=None)),
-                  gen_scenario(ctx.rng, ctx.thorough, dict(target='list', mode='parallel', n_cpus=2, api='MultiSim', inplace=True)),
-                  gen_scenario(ctx.rng, ctx.thorough, dict(target='list', mode='serial', api='parallel', inplace=True))]
+                  gen_scenario(ctx.rng, ctx.thorough, dict(target='list', mode='parallel', n_cpus=2, api='MultiSim', inplace=True, min_members=3)),
+                  gen_scenario(ctx.rng, ctx.thorough, dict(target='list', mode='serial', api='parallel', inplace=True, min_members=2))]
     did_sum = 0
     for i, sc in enumerate(scenarios):
         fails, out = oracle_scenario(sc, ctx.rng)
